@@ -195,3 +195,25 @@ package callbacks
 //@   in callbacks.ConvertMapToValuesForCreate
 //@   min-sites 1
 //@   assert stored-name-was-admitted: (has(selectColumns, arg0) && selectColumns[arg0]) || (!has(selectColumns, arg0) && !restricted) [C10]
+
+//@ # ---------- C11: preload starts from clean relation fields ----------
+//@ # "Exactly the child rows whose foreign key equals the parent's key": a parent without a matching child must
+//@ # end up with an empty relation, whatever its relation field held before, for single-valued relations too.
+//@ # So every parent's relation field is reset (one Field.Set per parent) before the loaded rows are assigned.
+//@ ghost relSets lastKind cleanedKind cleanupSets resetUpTo
+//@ event calldyn Field.Set
+//@   in callbacks.preload
+//@   do relSets = relSets + 1
+//@ event call reflect.(Value).Kind
+//@   in callbacks.preload
+//@   do lastKind = result
+//@ func preload
+//@   tags C11
+//@   let sets0 = relSets
+//@   loop "i := 0; i < reflectValue.Len(); i++" entry-do relSets = 0
+//@   loop "i := 0; i < reflectValue.Len(); i++" invariant one-reset-per-parent-so-far: relSets == i
+//@   loop "i := 0; i < reflectValue.Len(); i++" exit-do resetUpTo = i
+//@   loop "i := 0; i < reflectResults.Len(); i++" entry-do cleanedKind = lastKind
+//@   loop "i := 0; i < reflectResults.Len(); i++" entry-do cleanupSets = relSets
+//@   loop "i := 0; i < reflectResults.Len(); i++" invariant a-single-parent-was-reset: cleanedKind == 25 ==> cleanupSets == sets0 + 1
+//@   loop "i := 0; i < reflectResults.Len(); i++" invariant every-parent-of-a-slice-was-reset: (cleanedKind == 23 || cleanedKind == 17) ==> cleanupSets == resetUpTo
